@@ -13,7 +13,8 @@ Profile rules enforced here (the Lean model additionally polices them and answer
     (read/write sets are tracked; `&&`, `||`, `?:` are sequence points);
   * for-in bodies are order-insensitive (commutative accumulations, copying, deleting);
   * loops are bounded by reserved counters, recursion by a decreasing argument;
-  * no dynamic regexps, no pipes, no `RS` changes, no `printf %c` with values outside 33..126.
+  * no dynamic regexps, pipes only as `print | "cat > file"`, `"cat file" | getline`, `"echo words" | getline`,
+    no `RS` changes, no `printf %c` with values outside 33..126.
 """
 import random
 
@@ -324,6 +325,22 @@ def getline(lv=None, file=None):
              "num", size=size(*es), **r)
 
 
+def getline_cmd(lv, cmd):
+    """`cmd | getline [lv]` (input pipe); the command is one of the shapes the model knows: `cat NAME`, `echo WORDS`"""
+    es = [x for x in (lv, cmd) if x is not None]
+    r = eff(*es)
+    r["writes"] |= {"@rd"}
+    r["reads"] |= {"@rd"}
+    if lv is None:
+        r["writes"] |= {"$"}
+    else:
+        w = lv_target(lv)
+        r["writes"] |= w
+        r["cwrites"] -= w
+    t = cmd.at(P_ADD) + " | getline" + ("" if lv is None else " " + lv.txt)
+    return E(P_PRIM, "(" + t + ")", sx("getlinecmd", lv.sx if lv is not None else "-", cmd.sx), "num", size=size(*es), **r)
+
+
 def close_(e):
     r = eff(e)
     r["writes"] |= {"@rd", "@out"}
@@ -384,6 +401,8 @@ GLOBS = ["g0", "g1"]
 ARRAYS = ["A", "B", "C"]
 LOOPVARS = ["i1", "i2", "i3"]
 OUTFILES = ["o1", "o2.out", "o_3"]
+# files written through a pipe (`print | "cat > p1"`): kept apart from OUTFILES (two streams on one file are outside the profile)
+PIPEFILES = ["p1", "p2.out"]
 
 
 class Fn:
@@ -411,6 +430,7 @@ class Gen:
         self.in_func = None          # dict(params=[...], arrs=[...], locals=[...]) while generating a function body
         self.phase = "begin"
         self.busy_files = set()      # files being read by an enclosing getline loop
+        self.cmd_keys = set()        # input-pipe commands used so far (close() candidates)
         self.features = set()
         self.fs = fs
         self.protected = set()       # loop counters that bodies must not write
@@ -1157,7 +1177,8 @@ class Gen:
     def closable(self):
         # a function may be called from inside a `while ((getline < file) > 0)` loop: closing that file there would
         # restart the loop forever, so functions only close output files
-        names = OUTFILES if self.in_func is not None else OUTFILES + self.input_names + self.extra_names
+        outs = OUTFILES + ["cat > " + n for n in PIPEFILES] + sorted(self.cmd_keys)
+        names = outs if self.in_func is not None else outs + self.input_names + self.extra_names
         c = [n for n in names if n not in self.busy_files]
         return c or ["nosuch"]
 
@@ -1176,7 +1197,18 @@ class Gen:
         if r < 0.5:
             self.features.add("getline-var")
             return getline(self.pick(lvs))
-        f = strlit(self.pick(names))
+        name = self.pick(names)
+        f = strlit(name)
+        if self.chance(0.3):
+            # input pipe: `"cat file" | getline`, `"echo words" | getline` (a missing file would make cat diagnose)
+            cmd = ("cat " + name) if (name != "nosuch" and self.chance(0.7)) else "echo " + " ".join(self.word() for _ in range(self.rng.randrange(1, 4)))
+            c = strlit(cmd) if self.chance(0.7) else cat(strlit(cmd[:4]), strlit(cmd[4:]))
+            self.cmd_keys.add(cmd)
+            if r < 0.75 and self.phase != "func":
+                self.features.add("getline-cmd")
+                return getline_cmd(None, c)
+            self.features.add("getline-var-cmd")
+            return getline_cmd(self.pick(lvs), c)
         if r < 0.75 and self.phase != "func":
             self.features.add("getline-file")
             return getline(None, f)
@@ -1212,14 +1244,32 @@ class Gen:
         return args
 
     def redir(self):
+        """redirection of a print/printf: operator (`>`, `>>`, `| "cat > file"`) x shape of the target (string literal,
+        parenthesised literal, parenthesised concatenation, builtin call)"""
         if self.chance(0.85) or (self.in_func is not None and self.in_func["pure"]):
             return None, "-", ""
         self.features.add("redir")
-        name = self.pick(OUTFILES)
-        e = strlit(name)
-        if self.chance(0.5):
-            return e, sx("trunc", e.sx), " > " + e.txt
-        return e, sx("append", e.sx), " >> " + e.txt
+        r = self.rng.random()
+        if r < 0.25:
+            op, sym, full = "pipe", " | ", "cat > " + self.pick(PIPEFILES)
+            self.features.add("pipe")
+        elif r < 0.62:
+            op, sym, full = "trunc", " > ", self.pick(OUTFILES)
+        else:
+            op, sym, full = "append", " >> ", self.pick(OUTFILES)
+        shape = self.pick(["lit", "lit", "lit", "paren", "parencat", "call"])
+        if shape == "lit":
+            e = strlit(full); t = e.txt
+        elif shape == "paren":
+            e = strlit(full); t = "(" + e.txt + ")"
+        elif shape == "parencat":
+            k = self.rng.randrange(1, len(full))
+            e = cat(strlit(full[:k]), strlit(full[k:])); t = "(" + e.txt + ")"
+        else:
+            e = builtin("tolower", [strlit(full.upper())], "str"); t = e.txt
+        if shape != "lit":
+            self.features.add("redir-target-shape")
+        return e, sx(op, e.sx), sym + t
 
     def print_stmt(self, depth):
         if self.in_func is not None and self.in_func["pure"]:
@@ -1229,7 +1279,12 @@ class Gen:
         if not args and not self.record_ok():
             args = [strlit("p")]
         # inside a print list everything looser than concatenation is parenthesised ('>' would be a redirection)
-        txt = "print" + (" " if args else "") + ", ".join(a.at(P_CAT) for a in args) + rt
+        lst = ", ".join(a.at(P_CAT) for a in args)
+        if len(args) >= 2 and self.chance(0.2):
+            self.features.add("print-parenthesised-list")
+            txt = "print(" + lst + ")" + rt
+        else:
+            txt = "print" + (" " if args else "") + lst + rt
         return self.raw(txt, sx("print", rs, *[a.sx for a in args]))
 
     def printf_stmt(self, depth):
@@ -1238,8 +1293,8 @@ class Gen:
         f, args = self.fmt_and_args(depth, newline=self.chance(0.8))
         re_, rs, rt = self.redir()
         body = ", ".join(a.at(P_CAT) for a in [f] + args)
-        if self.chance(0.25) and not rt:
-            txt = "printf(" + body + ")"
+        if self.chance(0.25):
+            txt = "printf(" + body + ")" + rt
         else:
             txt = "printf " + body + rt
         self.features.add("printf")
